@@ -7,7 +7,10 @@ consistently, closures included) and the source is re-emitted by ast.unparse (la
 change).  All rule modules are run on the variant; any obligation that fails
 on the variant but not on the real tree is a false alarm of the checker.
 
-Usage: tools/benign_sweep.py [--jobs N] [module-substring ...]
+Usage: tools/benign_sweep.py [--jobs N] [--params] [module-substring ...]
+
+--params also renames function parameters that are never passed by keyword
+anywhere in the repository (self / cls excepted).
 """
 import ast
 import multiprocessing
@@ -20,6 +23,8 @@ sys.path.insert(0, os.path.dirname(os.path.dirname(os.path.abspath(__file__))))
 from psa import model, run as psarun   # noqa: E402
 
 SUFFIX = '_rn'
+RENAME_PARAMS = False
+KW_NAMES = set()      # names used as keyword at any call site of the repo
 
 
 def _bound_in(fn):
@@ -90,8 +95,12 @@ def rename_locals(tree):
                 for al in n.names:
                     imported.add((al.asname or al.name).split('.')[0])
         mine = {}
-        for nm in bound:
-            if nm in params or nm in glob or nm in nested_names or \
+        for nm in sorted(bound):
+            if nm in params and not (
+                    RENAME_PARAMS and nm not in ('self', 'cls') and
+                    nm not in KW_NAMES):
+                continue
+            if nm in glob or nm in nested_names or \
                     nm in imported or nm.startswith('__'):
                 continue
             count += 1
@@ -99,6 +108,11 @@ def rename_locals(tree):
         # visible renames: inherited ones not shadowed here + mine
         visible = {k: v for k, v in inherited.items() if k not in bound}
         visible.update(mine)
+        a_ = fn.args
+        for x in a_.posonlyargs + a_.args + a_.kwonlyargs + [
+                y for y in (a_.vararg, a_.kwarg) if y is not None]:
+            if x.arg in mine:
+                x.arg = mine[x.arg]
 
         def walk(n):
             for c in ast.iter_child_nodes(n):
@@ -181,7 +195,9 @@ def failed_keys(ctx):
 
 
 def work(args):
-    relpath, base = args
+    global RENAME_PARAMS
+    relpath, base, RENAME_PARAMS, kws = args
+    KW_NAMES.update(kws)
     t0 = time.time()
     try:
         src_, n = variant(relpath)
@@ -200,10 +216,13 @@ def work(args):
 def main(argv):
     jobs = 16
     pats = []
+    params = False
     it = iter(argv)
     for a in it:
         if a == '--jobs':
             jobs = int(next(it))
+        elif a == '--params':
+            params = True
         else:
             pats.append(a)
     base_ctx = psarun.Ctx('/repo')
@@ -214,7 +233,12 @@ def main(argv):
     if pats:
         mods = [m for m in mods if any(p in m for p in pats)]
     base_l = {p: sorted(ks) for p, ks in base.items()}
-    tasks = [(m, base_l) for m in mods]
+    kws = set()
+    for m in base_ctx.prog.modules.values():
+        for n in ast.walk(m.tree):
+            if isinstance(n, ast.keyword) and n.arg:
+                kws.add(n.arg)
+    tasks = [(m, base_l, params, sorted(kws)) for m in mods]
     bad = 0
     with multiprocessing.Pool(min(jobs, len(tasks))) as pool:
         for relpath, n, new, errs, dt in pool.imap_unordered(work, tasks):
